@@ -279,14 +279,32 @@ def rule_walk(ck: Check, repo: Repo) -> None:
             if got != p:
                 r.violation(qual, f"flag {p} not forwarded to is_path_ignored({ast.unparse(c.args[0]) if c.args else ''})",
                             f"parameter {p} receives {got}", repo.loc(c))
-    # subset_files is normalised to resolved paths (is_path_ignored compares resolved paths)
-    norm_ok = any(
-        isinstance(n, ast.SetComp) and ast.unparse(n.elt).endswith(".resolve()") and ast.unparse(n.generators[0].iter) == "subset_files"
-        for n in ast.walk(fn))
-    r.instance("subset-normalisation", {"resolved": norm_ok})
-    if not norm_ok:
-        r.violation(qual, "subset_files not resolved", "subset entries must be resolved before membership tests",
-                    repo.loc(fn))
+    subset_normalisation(r, repo)
+
+
+def subset_normalisation(r, repo: Repo) -> None:
+    """The subset is compared like with like: iter_files resolves every requested path and
+    is_path_ignored tests the resolved candidate (file) / resolved directory prefix."""
+    qual = f"{CF}.iter_files"
+    fn = repo.func(qual)
+    norm = [n for n in ast.walk(fn) if isinstance(n, (ast.SetComp, ast.ListComp, ast.GeneratorExp))
+            and ast.unparse(n.generators[0].iter) == "subset_files"]
+    how = [ast.unparse(n.elt) for n in norm]
+    r.instance("subset-normalisation", {"iter_files": how})
+    ok = any(re.fullmatch(r"Path\((\w+)\)\.resolve\(\)|(\w+)\.resolve\(\)", h) for h in how)
+    if not ok:
+        r.violation(qual, "subset_files not resolved",
+                    f"requested files are normalised by {how or 'nothing'}; is_path_ignored compares against"
+                    " path.resolve(), so a non-canonical spelling (.., symlinked directory) never matches", repo.loc(fn))
+    ig = repo.func(f"{CF}.is_path_ignored")
+    src = ast.unparse(ig)
+    uses = {"file": "path.resolve() not in subset_files" in src or "path.resolve() in subset_files" in src,
+            "dir": "is_relative_to(path.resolve())" in src}
+    r.instance("subset-membership", uses)
+    for k, v in uses.items():
+        if not v:
+            r.violation(f"{CF}.is_path_ignored", f"subset membership of a {k} does not use the resolved path",
+                        "subset entries are resolved paths", repo.loc(ig))
 
 
 def _strip(events):
@@ -389,26 +407,31 @@ def rule_forwarding(ck: Check, repo: Repo) -> None:
     if sorted(set(mapped)) != ["files"] or len(mapped) < 2:
         r.violation("reuse.report._generate_file_reports", "mapped collection",
                     f"the container is mapped over {mapped}, expected `files` on both branches", repo.loc(gfr))
-    # annotate --recursive expands only through Project.all_files()
+    # annotate --recursive expands only through Project.all_files() walked from the project root
     ap = repo.func("reuse.cli.annotate.all_paths")
     ck.analysed_fn("reuse.cli.annotate.all_paths")
-    src = expr_text(ap, ast.Name("all_files", ast.Load()))
-    r.instance("annotate-recursive-source", {"all_files": src})
-    if not re.fullmatch(r"\[path\.resolve\(\) for path in project\.all_files\(\)\]|list\(project\.all_files\(\)\)", src):
+    af_calls = find_calls(ap, lambda c, f: f.split(".")[-1] in ("all_files", "subset_files", "iter_files"))
+    r.instance("annotate-recursive-source", {"calls": [ast.unparse(c) for c in af_calls]})
+    if not af_calls:
         r.violation("reuse.cli.annotate.all_paths", "recursive expansion source",
-                    f"children come from {src}; expected Project.all_files()", repo.loc(ap))
+                    "children of a directory argument must come from Project.all_files()", repo.loc(ap))
+    for c in af_calls:
+        if ast.unparse(c) != "project.all_files()":
+            r.violation("reuse.cli.annotate.all_paths", f"recursive expansion walks {ast.unparse(c)}",
+                        "a walk that does not start at the project root skips the directory-level exclusions of the"
+                        " directories above its starting point (ignored / submodule / subprojects / LICENSES)", repo.loc(c))
     walkers = find_calls(ap, lambda c, f: f in ("os.walk", "os.listdir", "os.scandir") or
                          f.split(".")[-1] in ("rglob", "glob", "iterdir", "walk"))
     r.instance("annotate-recursive-no-own-walk", {"walk_calls": len(walkers)})
     for c in walkers:
         r.violation("reuse.cli.annotate.all_paths", f"own directory walk {ast.unparse(c.func)}",
                     "recursive annotate must expand only through Project.all_files()", repo.loc(c))
-    comp = [n for n in ast.walk(ap) if isinstance(n, ast.SetComp)]
-    ok = any(ast.unparse(n.generators[0].iter) == "all_files" and len(n.generators[0].ifs) == 1 and
-             ast.unparse(n.generators[0].ifs[0]) == "path.resolve() in child.parents" for n in comp)
-    if not ok:
+    comps = [n for n in ast.walk(ap) if isinstance(n, (ast.SetComp, ast.ListComp, ast.GeneratorExp))]
+    under = [n for n in comps if any(re.search(r"\.parents\b|is_relative_to\(", ast.unparse(i)) for g in n.generators for i in g.ifs)]
+    r.instance("annotate-recursive-child-filter", {"filters": [ast.unparse(i) for n in under for g in n.generators for i in g.ifs]})
+    if af_calls and all(ast.unparse(c) == "project.all_files()" for c in af_calls) and not under:
         r.violation("reuse.cli.annotate.all_paths", "child filter",
-                    "children of a directory argument must be the covered files below it", repo.loc(ap))
+                    "children of a directory argument must be restricted to the covered files below it", repo.loc(ap))
 
 
 # ------------------------------------------------------------------ R5
